@@ -958,6 +958,11 @@ func (e *specEnv) call(c SCall) specVal {
 		case "itoa":
 			a := e.eval(c.Args[0])
 			return specVal{V: Sc{v.itoa(a.V.(Sc).T)}, T: types.Typ[types.String]}
+		case "toLower", "toUpper":
+			a := e.eval(c.Args[0])
+			name := map[string]string{"toLower": "strings.ToLower", "toUpper": "strings.ToUpper"}[id.Name]
+			fn := v.sc.DeclareFun(name, []Sort{SStr}, SStr)
+			return specVal{V: Sc{app(SStr, fn, a.V.(Sc).T)}, T: types.Typ[types.String]}
 		case "errmsg":
 			a := e.eval(c.Args[0])
 			return specVal{V: Sc{v.errMsgTerm(a.V.(IfaceV))}, T: types.Typ[types.String]}
@@ -1109,6 +1114,16 @@ func (e *specEnv) call(c SCall) specVal {
 			if !wantPtr && havePtr {
 				av = v.deref(e.st, av, under(a.T).(*types.Pointer).Elem(), e.g())
 			}
+			if wantPtr && !havePtr {
+				// method with pointer receiver on an addressable operand (x.f.M()): take the field's address
+				if sel, ok := c.Fn.(SSel); ok {
+					if fsel, ok := sel.X.(SSel); ok {
+						if addr, ok := e.fieldAddress(fsel); ok {
+							av = addr
+						}
+					}
+				}
+			}
 		}
 		avs = append(avs, av)
 	}
@@ -1210,4 +1225,27 @@ func (e *specEnv) resolveFuncRef(x SExpr) *ssa.Function {
 		}
 	}
 	return nil
+}
+
+// fieldAddress: the address of x.f for a pointer-to-struct x (as the code would compute &x.f).
+func (e *specEnv) fieldAddress(sel SSel) (Val, bool) {
+	base := e.eval(sel.X)
+	pt, ok := under(base.T).(*types.Pointer)
+	if !ok {
+		return nil, false
+	}
+	st, ok := under(pt.Elem()).(*types.Struct)
+	if !ok {
+		return nil, false
+	}
+	ref, ok := base.V.(Sc)
+	if !ok {
+		return nil, false
+	}
+	for i := 0; i < st.NumFields(); i++ {
+		if st.Field(i).Name() == sel.Name {
+			return e.v.fieldAddr(ref.T, pt.Elem(), i), true
+		}
+	}
+	return nil, false
 }
